@@ -157,6 +157,9 @@ def check_instance(ctx, inst, props=('C03',), helper_kind='h1'):
         md = icheck.model_dict(m, P, extra) if m is not None else None
         if md is not None: md['x86'] = {rg: mval(m, X0[rg]) for rg in REGS}
         cands.append(dict(role=f'jit/{name}/{aspect}', detail=f'{detail} [{tag}]', inst=list(inst), model=md, friendly=True, prog=prog.hex()))
+    if not conts and k in ('ldx', 'st', 'stx', 'xadd') and (s if k == 'ldx' else d) == 10 and off + info['size'] > 0:
+        # an access based on r10 that reaches past the top of the stack is refused for every state: outside C03's premise (all accesses in bounds)
+        pr.out['outside_premise'] = pr.out.get('outside_premise', 0) + 1; return cands
     if not conts and k != 'tail_call':
         pr.out['errors'].append(f'{name} [{tag}]: interpreter has no continuing path (vacuous)'); return cands
     a_sym = BitVec('a_any', 64)
